@@ -455,6 +455,8 @@ def conv_session(v: Verdict, name: str, flags: dict, n_worlds: int, profile: dic
                             oracle_c01(v, w, cfg, cfg2, t, x, u, sres)
                         if "C02" in oracles:
                             oracle_c02(v, w, conv2, cfg2, fb2, t, u, sres)
+                        if "C06" in oracles and not fb2:
+                            oracle_c06_struct(v, w, cfg2, t, u, sres)
                     # corrupted payloads and junk
                     for j in range(3):
                         if j < 2:
